@@ -116,18 +116,26 @@ Definition xres_v (r : xres) : val :=
    observation: (status realroot fs-after)
      status   = (tok n<count>) | (tnofiles) | (terr)
      realroot = (tsome <phys>) | (tnone)      what the output directory argument resolves to *)
-Definition run_extract (input : val) : val :=
+Definition run_extract_parts (input : val) : val * val * val * val :=
   let fs := v_fs (vnth 0 input) in
   let cwd := v_phys (vnth 1 input) in
   let outdir := vB (vnth 2 input) in
   let pathflag := vB (vnth 3 input) in
   let roots := map v_uroot (vL (vnth 4 input)) in
-  let '(fs', r) := extract_cmd true fs cwd outdir pathflag roots in
-  let rr := match eval_symlinks_str fs cwd outdir with
-            | Some root => VL [VT "some"; phys_v (phys_of cwd root)]
-            | None => VL [VT "none"]
-            end in
-  VL [xres_v r; rr; fs_mv (v_modes (vnth 0 input)) fs'].
+  let '(fs', out, r) := extract_main true fs cwd outdir pathflag roots in
+  let rr := if bytes_eqb outdir s_dash then VL [VT "none"]
+            else match eval_symlinks_str fs cwd outdir with
+                 | Some root => VL [VT "some"; phys_v (phys_of cwd root)]
+                 | None => VL [VT "none"]
+                 end in
+  (xres_v r, rr, fs_mv (v_modes (vnth 0 input)) fs', VB out).
+
+(* kind "extract": observation (status realroot fs-after stdout) *)
+Definition run_extract (input : val) : val :=
+  let '(st, rr, f, out) := run_extract_parts input in VL [st; rr; f; out].
+(* (status realroot fs-after), as used by the create/extract kinds *)
+Definition run_extract3 (input : val) : val :=
+  let '(st, rr, f, _) := run_extract_parts input in VL [st; rr; f].
 
 (* layer B on what the implementation did: every path outside the (real) output directory is
    the same before and after. *)
@@ -202,13 +210,13 @@ Definition run_createextract (input : val) : val :=
     else stdin_open_ok true (if mode =? 1 then RRegular else RPipe) version in
   let ri := VL [VN 1; VN 1; VN 1; VN 1] in
   if opens then
-    match run_extract input with
+    match run_extract3 input with
     | VL l => VL (l ++ [ri])
     | v => v
     end
   else
     (* the archive cannot be opened: nothing is extracted *)
-    match run_extract input with
+    match run_extract3 input with
     | VL [_; rr; _] => VL [VL [VT "err"]; rr; fs_mv (v_modes (vnth 0 input)) (v_fs (vnth 0 input)); ri]
     | v => v
     end.
@@ -247,7 +255,14 @@ Definition prop_createextract (input obs : val) : val :=
   else
     let src := vnth 7 input in
     let dst := vnth 8 input in
-    if is_tagv (vnth 0 dst) "skip" then VT "ok"
+    if is_tagv (vnth 0 dst) "skip" then
+      (* --no-wrap of a lone file of one chunk (raw root, skipped by design) or of a lone symlink
+         (a root has no name to be restored under): the tool must report that nothing was
+         extracted and must leave the output directory empty *)
+      if is_tagv (vnth 0 (vnth 0 obs)) "nofiles" &&
+         (length (subtree (v_phys (vnth 1 dst)) (fs_canon after)) =? 1)%nat
+      then VT "ok"
+      else VL [VT "FAIL"; VT "nameless-root-not-skipped-cleanly"; VT "no-wrap-lone-source"]
     else
       let a := subtree (v_phys src) (fs_canon after) in
       let b := subtree (v_phys dst) (fs_canon after) in
@@ -255,3 +270,40 @@ Definition prop_createextract (input obs : val) : val :=
       else VL [VT "FAIL"; VT "extracted-tree-differs-from-source";
                VT (if vN (vnth 2 opts) =? 2 then (if vN (vnth 0 opts) =? 2 then "stdin-pipe-carv2" else "stdin-pipe-carv1")
                    else if vN (vnth 2 opts) =? 1 then "stdin-file" else "file")].
+
+(* ---- kind "createextractlarge" (C18, trees too large to push through the list-based fs model) ----
+   input: (utree opts) -- the tree `car create` packs (reference packing), opts = (version no-wrap mode)
+   observation: (status rootinfo n<extracted tree = source tree, compared by the harness> n<source untouched>)
+   The model predicts what C18_extract_reproduces_any_valid_tree says for a valid tree: success,
+   count = uleaves u, the tree reproduced. *)
+Definition run_createextractlarge (input : val) : val :=
+  let u := v_utree (vnth 0 input) in
+  let opts := vnth 1 input in
+  let version := vN (vnth 0 opts) in
+  let mode := vN (vnth 2 opts) in
+  let pathflag := vB (vnth 4 opts) in
+  let opens :=
+    if mode =? 0 then true
+    else stdin_open_ok true (if mode =? 1 then RRegular else RPipe) version in
+  let ri := VL [VN 1; VN 1; VN 1; VN 1] in
+  (* with --path <name>: the selected entry of the root directory *)
+  let sel :=
+    match path_segments pathflag with
+    | Some [] => Some u
+    | Some [m] => match u with UDir es => assoc_u m es | _ => None end
+    | _ => None
+    end in
+  match sel with
+  | Some u' =>
+    if valid_utree u && is_udir u && is_udir u' && opens
+    then VL [xres_v (XOk (uleaves u')); ri; VN 1; VN 1]
+    else VL [VT "not-predicted"]
+  | None => VL [VT "not-predicted"]
+  end.
+
+Definition prop_createextractlarge (input obs : val) : val :=
+  let ri := vnth 1 obs in
+  if negb ((vN (vnth 0 ri) =? 1) && vbool (vnth 1 ri) && vbool (vnth 2 ri) && vbool (vnth 3 ri))
+  then VL [VT "FAIL"; VT "root-is-not-the-single-printed-cid"; VT "create"]
+  else if vbool (vnth 2 obs) && vbool (vnth 3 obs) then VT "ok"
+  else VL [VT "FAIL"; VT "extracted-tree-differs-from-source"; VT "large-tree"].
